@@ -296,6 +296,57 @@ def r06_3(prog, tab, rid="R06.3"):
     return r
 
 
+def r06_4(prog, tab):
+    """A normalised copy made by an encoder is the object that gets encoded.  In every function reachable from an
+    encoder slot, a block obtained from an allocating helper (asn_time2GT_frac, asn_time2UT, OCTET_STRING_new_fromBuf,
+    ... computed by the ownership summaries) and held in a local must be *used*: passed to a call that does not release
+    it, dereferenced, returned or stored.  A copy that is only tested for NULL and freed is dead: the encoder went on
+    with the caller's un-normalised representation."""
+    from .. import ownership
+    r = Rule("R06.4", "a normalised copy built inside an encoder is used for the encoding (never only NULL-tested and freed)", floor=6)
+    summ = ownership.Summaries(prog, load_tables("c14"))
+    summ.close_alloc_funcs()
+    cg = prog.callgraph()
+    scope = cg.reachable(common.slot_functions(prog, common.ENCODER_SLOTS))
+    for k in sorted(scope):
+        f = prog.funcs[k]
+        for b, i, e in f.calls():
+            if e.get("callee") not in summ.alloc_funcs:
+                continue
+            group, esc = ownership.holders_of_site(f, b, i, e)
+            key = "%s->%s" % (e["callee"], ",".join(sorted(v.split("@")[0] for v in group)) or e.get("use"))
+            if not group or esc:
+                r.ok(f, key, "result stored outside the function or handed on directly", e["line"], nontrivial=False)
+                continue
+            used = None
+            for b2, i2, x in f.events():
+                if (b2.id, i2) == (b.id, i):
+                    continue
+                if x["k"] == "call":
+                    rel = set(summ.releases(x))
+                    for ai, a in enumerate(x.get("args", [])):
+                        if ai in rel:
+                            continue
+                        if any(n[0] == "var" and n[1] in group for n in walk(a.get("tree"))):
+                            used = x
+                elif x["k"] in ("deref", "subscript") and x.get("base_id") in group:
+                    used = x
+                elif x["k"] == "return" and x.get("expr") and any(n[0] == "var" and n[1] in group for n in walk(x["expr"]["tree"])):
+                    used = x
+                elif x["k"] == "assign" and "rhs" in x and x.get("base_id") not in group and any(n[0] == "var" and n[1] in group for n in walk(x["rhs"]["tree"])):
+                    used = x
+                elif x["k"] == "assign" and x.get("base_id") in group and (x.get("deref") or x.get("lhs") != x.get("base")):
+                    used = x
+                if used:
+                    break
+            if used:
+                r.ok(f, key, "the copy is used at line %s" % used.get("line"), e["line"])
+            else:
+                r.bad(f, key, "the object returned by %s is only NULL-tested and released: the encoding is produced from the caller's "
+                              "representation, not from the normalised copy" % e["callee"], e["line"])
+    return r
+
+
 def _reaches(f, cb, b):
     return b.id in f.reachable_from([cb.id])
 
@@ -303,7 +354,7 @@ def _reaches(f, cb, b):
 def run(ctx):
     prog = ctx.prog("S")
     tab = load_tables("c06")
-    return [r06_1(prog, tab), r06_1b(prog, tab), r06_2(prog, tab), r06_3(prog, tab)]
+    return [r06_1(prog, tab), r06_1b(prog, tab), r06_2(prog, tab), r06_3(prog, tab), r06_4(prog, tab)]
 
 
 def thorough(ctx):
